@@ -129,6 +129,29 @@ def csv_cases(rep, pa, cases, rng, tier):
                 rep.case(key=json.dumps(["roundtrip", delim, s]))
             if not ok:
                 rep.violation("io.csv_roundtrip", {"delimiter": delim, "strings": part[:10], "detail": detail})
+        # files that hold ONE kind of awkward text only, next to plain fields (what a reader guesses about a file - its quoting,
+        # its dialect - must not depend on which other fields happen to be in it)
+        singles = [["'a'", "'b'", "'c d'"], ["'tis", "'twas"], ["it's", "o'clock"], ["''", "'"], ['"q"', '"'], ["#c", "# d"], [" ", "  "],
+                   ["a'b'c", "x'y"], ["é", "ü"], ["a;b", "c|d", "e\tf".replace("\\t", "\t")], ["1", "2.5", "-3"], ["None", "nan", "NULL"], ["a\\b", "\\"]]
+        for group in singles:
+            c = pa.Continuum()
+            for i, t in enumerate(group):
+                c.add(t, Segment(1.0 + i, 2.5 + i), t)
+                c.add("plain", Segment(0.5 + i, 0.75 + i), "lab" + str(i))
+                c.add(t, Segment(4.0 + i, 4.5 + i), "plain")
+            path = work / "rt1.csv"
+            c.to_csv(str(path), delimiter=delim)
+            try:
+                back = pa.Continuum.from_csv(str(path), delimiter=delim)
+                ok = (back == c) and list(back.categories) == list(c.categories) and proj_units(back) == proj_units(c)
+                detail = None if ok else {"first_difference": next(((x, y) for x, y in zip(proj_units(c), proj_units(back)) if x != y), "length")}
+            except Exception as ex:
+                ok, detail = False, {"exception": repr(ex)}
+            n += len(group)
+            for t in group:
+                rep.case(key=json.dumps(["roundtrip-single", delim, t]))
+            if not ok:
+                rep.violation("io.csv_roundtrip", {"delimiter": delim, "strings": group, "file_holds": "these strings and plain fields only", "detail": detail})
     return n
 
 
